@@ -13,8 +13,9 @@ LEMMAS = {}
 
 
 class Lemma:
-    def __init__(self, name, vars_, stmt, induct=None, uses=(), pats=None, tags=(), hints=None, doc=''):
+    def __init__(self, name, vars_, stmt, induct=None, uses=(), pats=None, tags=(), hints=None, doc='', ih_instances=None):
         self.name, self.vars, self.stmt, self.induct, self.uses = name, list(vars_), stmt, induct, tuple(uses)
+        self.ih_instances = ih_instances
         self.pats, self.tags, self.hints, self.doc = pats, tuple(tags), hints, doc
         LEMMAS[name] = self
 
@@ -32,14 +33,22 @@ class Lemma:
         hyps = [LEMMAS[u].as_hyp() for u in self.uses]
         if self.induct:
             var, base = self.induct
-            others = {n: t.var(n + '!ih', s) for n, s in self.vars if n != var}
-            inst = dict(others)
-            inst[var] = t.sub(vs[var], t.ONE)
-            ih = self.stmt(inst)
-            if others:
-                pats = self.pats(inst) if self.pats else ()
-                ih = t.forall(list(others.values()), ih, pats=pats)
-            hyps.append(t.implies(t.gt(vs[var], t.I(base)), ih))
+            if self.ih_instances:
+                # explicit instances of the induction hypothesis: the induction variable is var-1, the other variables
+                # are arbitrary terms (the lemma is universally quantified over them)
+                for inst in self.ih_instances(vs):
+                    inst = dict(inst)
+                    inst[var] = t.sub(vs[var], t.ONE)
+                    hyps.append(t.implies(t.gt(vs[var], t.I(base)), self.stmt(inst)))
+            else:
+                others = {n: t.var(n + '!ih', s) for n, s in self.vars if n != var}
+                inst = dict(others)
+                inst[var] = t.sub(vs[var], t.ONE)
+                ih = self.stmt(inst)
+                if others:
+                    pats = self.pats(inst) if self.pats else ()
+                    ih = t.forall(list(others.values()), ih, pats=pats)
+                hyps.append(t.implies(t.gt(vs[var], t.I(base)), ih))
         if self.hints:
             hyps.extend(self.hints(vs))
         return [Obligation('lemma/' + self.name, hyps, self.stmt(vs), kind='lemma', tags=self.tags)]
